@@ -7,6 +7,8 @@ use serde_json::{json, Map, Number, Value};
 /// last valid tile id (last id of zoom 31)
 pub const LAST: u64 = 6_148_914_691_236_517_204;
 pub const IDS6: [u64; 6] = [0, 1, 2, 4, 5, LAST];
+/// thorough tier: one more id inside the z1 block (5^7 maps)
+pub const IDS7: [u64; 7] = [0, 1, 2, 3, 4, 5, LAST];
 
 pub fn contents4() -> [Vec<u8>; 4] {
     [vec![0x41], vec![0x42], vec![0x41, 0x00], vec![0x41, 0x01]]
@@ -17,9 +19,10 @@ pub fn small_maps(nids: usize, internal: Compression) -> Vec<Logical> {
     let ks = contents4();
     let total = 5usize.pow(nids as u32);
     let mut out = Vec::with_capacity(total);
+    let ids: Vec<u64> = if nids >= 7 { IDS7.to_vec() } else { IDS6.iter().take(nids).copied().collect() };
     for mut code in 0..total {
         let mut l = Logical::new(internal);
-        for id in IDS6.iter().take(nids) {
+        for id in ids.iter() {
             let d = code % 5;
             code /= 5;
             if d > 0 {
